@@ -100,6 +100,34 @@ def h_pure(d, lang, sx, sy, lf, full, nb_each=False):
     return True
 
 
+def h_history(d, lang, sx, sy, lf, full):
+    """the same list on every call, in every process: a pair is asked after its feature-erased twin (and the twin after the pair) in one
+    process; each answer must be the one a fresh process gives"""
+    from lib import env
+    env.fresh_state()
+    g = grammar(lang)
+    x, y = build_pair(d, lang, sx, sy, lf, full)
+    try:
+        xt, yt = x.clear_features('X', 'nb'), y.clear_features('X', 'nb')
+        alone = g.apply_binary_rules(x, y)
+        env.fresh_state()
+        twin_alone = g.apply_binary_rules(xt, yt)
+        env.fresh_state()
+        g.apply_binary_rules(xt, yt)
+        after_twin = g.apply_binary_rules(x, y)
+        env.fresh_state()
+        g.apply_binary_rules(x, y)
+        twin_after = g.apply_binary_rules(xt, yt)
+        env.fresh_state()
+    except Exception as e:
+        return ('raises:' + type(e).__name__, lang, sym_str(x), sym_str(y))
+    if not same_results(alone, after_twin):
+        return ('result-depends-on-earlier-calls', lang, sym_str(x), sym_str(y), 'asked after its feature-erased twin')
+    if not same_results(twin_alone, twin_after):
+        return ('result-depends-on-earlier-calls', lang, sym_str(xt), sym_str(yt), 'the feature-erased twin asked after the pair')
+    return True
+
+
 class OrderSet(core.SymSet):
     """set whose iteration order is a symbolic permutation (the string-hash seed as a solver variable)"""
 
@@ -352,6 +380,14 @@ def obligations(tier):
                     for full in fulls:
                         yield Obligation('C14.pure[%s,%s,%s,lf=%d,full=%s]' % (lang, shape_name(sx), shape_name(sy), lf, full), 'h_pure',
                                          dict(lang=lang, sx=sx, sy=sy, lf=lf, full=full, nb_each=(not q and n <= 3)), cost=n * n)
+        if lang == 'en':
+            for sx in sh:
+                for sy in sh:
+                    n = nleaves(sx) + nleaves(sy)
+                    if n > (4 if q else 5):
+                        continue
+                    yield Obligation('C14.history[%s,%s,%s,twin asked before/after]' % (lang, shape_name(sx), shape_name(sy)), 'h_history',
+                                     dict(lang=lang, sx=sx, sy=sy, lf=1, full=([] if n > 3 else None)), cost=n * n * 2)
         for case in (('fa2', 'ba2', 'fc2') if q else ('fa2', 'ba2', 'fc2', 'fa3', 'fa4')):
             for lf in ((1,) if q else (1, 2)):
                 yield Obligation('C14.order[%s,%s,lf=%d]' % (lang, case, lf), 'h_order', dict(lang=lang, case=case, lf=lf), cost=60, max_seconds=600)
